@@ -101,11 +101,20 @@ def strategy(tier):
         case = draw(gen.fork_case()) if draw(st.integers(0, 5)) == 0 else draw(common.mixed_case(tier, ne_share=3, min_len=2))
         g = case["graph"]
         n = len(g)
-        kind = draw(st.sampled_from(["relabel", "reorder", "swap", "scale", "scale", "translate", "all"]))
+        kind = draw(st.sampled_from(["relabel", "relabel", "reorder", "swap", "scale", "scale", "translate", "all"]))
+        if kind == "relabel" and type(g[0][0]) is int and draw(st.booleans()):
+            # start from string labels so that the relabelling goes to integers (including 0)
+            names = draw(gen.labels(n, "str"))
+            ren0 = {old[0]: new for old, new in zip(g, names)}
+            case["graph"] = g = [[ren0[lab], loc, [ren0[x] for x in nb]] for lab, loc, nb in g]
         tf = {}
         if kind in ("relabel", "all"):
-            target = "str" if type(g[0][0]) is int else draw(st.sampled_from(["int", "str"]))
+            target = "str" if type(g[0][0]) is int else draw(st.sampled_from(["int", "int", "str"]))
             tf["relabel"] = draw(gen.labels(n, target))
+            if target == "int" and 0 not in tf["relabel"] and draw(st.booleans()):
+                tf["relabel"][draw(st.integers(0, n - 1))] = 0  # a label that is falsy in Python
+        elif kind == "relabel0":
+            pass
         if kind in ("reorder", "all"):
             tf["reorder"] = {"nodes": gen.shuffled(draw, range(n)), "rot": [draw(st.integers(0, 3)) for _ in range(n)]}
         if kind in ("swap", "all"):
